@@ -293,9 +293,38 @@ Fixpoint applied (ops : list op) : list event :=
 Inductive step :=
 | SApply (e : event) (res : N)   (* 0 applied; 1..4 rejected by BuildRawEvent (class); 9 Apply failed to load/build, 7 sequences violation *)
 | SReapply (mode res : N)        (* the last applied event again: 1 = cached PLog object, 2 = read from storage after restart *)
-| SObs (via ws id : N) (r : option rec).  (* 0 Get, 1 GetBatch, 2 GetSingleton; None = null record *)
+| SObs (via ws id : N) (r : option rec)   (* 0 Get, 1 GetBatch, 2 GetSingleton; None = null record *)
+| SLogged (e : event)            (* the last applied event as decoded from the stored PLog row by a reader that never saw the object *)
+| SHeld (first again : option rec).  (* a record object returned by a read, rendered when returned and again after later log/record traffic *)
 
 Definition trace := list step.
+
+(* what the log keeps of an event: rows without the in-memory origin, emptying = empty value *)
+Definition norm_change (c : fchange) : fchange :=
+  match c with SetTo (FStr []) => Clear | _ => c end.
+
+Definition fchange_eqb (a b : fchange) : bool :=
+  match norm_change a, norm_change b with
+  | Keep, Keep => true
+  | Clear, Clear => true
+  | SetTo x, SetTo y => fval_eqb x y
+  | _, _ => false
+  end.
+
+Definition create_eqb (a b : create) : bool :=
+  Bool.eqb (c_single a) (c_single b) && (c_id a =? c_id b) && (c_qname a =? c_qname b) && (c_parent a =? c_parent b)
+  && (c_container a =? c_container b) && Bool.eqb (c_active a) (c_active b)
+  && list_eqb fchange_eqb (c_sets a) (c_sets b).
+
+Definition update_logged_eqb (a b : update) : bool :=
+  (u_id a =? u_id b) && (u_parent a =? u_parent b) && (u_container a =? u_container b)
+  && Bool.eqb (u_active a) (u_active b) && list_eqb fchange_eqb (u_changes a) (u_changes b).
+
+(* update rows are stored in Go map order: compared as sets (ids are distinct in an accepted event) *)
+Definition logged_eqb (a b : event) : bool :=
+  (e_ws a =? e_ws b) && list_eqb create_eqb (e_creates a) (e_creates b)
+  && (length (e_updates a) =? length (e_updates b))%nat
+  && forallb (fun u => existsb (update_logged_eqb u) (e_updates b)) (e_updates a).
 
 Fixpoint agrees_from (st : store) (last : option (event * list item)) (t : trace) : bool :=
   match t with
@@ -318,20 +347,27 @@ Fixpoint agrees_from (st : store) (last : option (event * list item)) (t : trace
           else let '(st', code) := reapply st e in (res =? code) && agrees_from st' last rest
       end
   | SObs _ ws id o :: rest => option_eqb rec_eqb o (lookup st ws id) && agrees_from st last rest
+  | SLogged e' :: rest =>
+      match last with
+      | None => false
+      | Some (e, _) => logged_eqb e e' && agrees_from st last rest
+      end
+  | SHeld a b :: rest => option_eqb rec_eqb a b && agrees_from st last rest
   end.
 
 Definition agrees (t : trace) : bool := agrees_from [] None t.
 
-(* the oracle's domain: ids of one event distinct, created ids new, every update built from the
-   record the specification says is current (or from one without user fields) *)
+(* the oracle's domain: ids of one event distinct and created ids new (ID generation, C04).
+   Nothing is assumed about the records handed to ICUD.Update: every accepted update is judged
+   by the fold, also one built from an older snapshot or a foreign record (finding F-C03-1) *)
 Definition in_domain (hr : list event) (e : event) : bool :=
   nodupb (event_ids e)
-  && forallb (fun c => match spec_rec (touches hr (e_ws e) (c_id c)) (c_id c) with None => true | Some _ => false end) (e_creates e)
-  && forallb (fun u => rec_empty (u_origin u)
-                       || option_eqb rec_eqb (Some (u_origin u)) (spec_rec (touches hr (e_ws e) (u_id u)) (u_id u))) (e_updates e).
+  && forallb (fun c => match spec_rec (touches hr (e_ws e) (c_id c)) (c_id c) with None => true | Some _ => false end) (e_creates e).
 
-(* satisfies: every observed record equals the per-field fold of the events the implementation
-   reported as applied (re-applies add nothing); the implementation model is not consulted *)
+(* satisfies: every observed record equals the per-field fold of the LOGGED events: an applied
+   event enters the history as generated and is replaced by its decoded stored form as soon as
+   that is observed (SLogged); re-applies add nothing; a record object never changes after it was
+   returned; the implementation model is not consulted *)
 Fixpoint satisfies_from (hr : list event) (t : trace) : bool :=
   match t with
   | [] => true
@@ -340,6 +376,8 @@ Fixpoint satisfies_from (hr : list event) (t : trace) : bool :=
       else satisfies_from hr rest
   | SReapply _ _ :: rest => satisfies_from hr rest
   | SObs _ ws id o :: rest => option_eqb rec_eqb o (spec_rec (touches hr ws id) id) && satisfies_from hr rest
+  | SLogged e' :: rest => satisfies_from (e' :: tl hr) rest
+  | SHeld a b :: rest => option_eqb rec_eqb a b && satisfies_from hr rest
   end.
 
 Definition satisfies (t : trace) : bool := satisfies_from [] t.
@@ -367,7 +405,7 @@ Fixpoint model_trace (st : store) (last : option event) (ops : list op) (qs : li
   | [] => []
   | OApply e :: r =>
       let st' := fst (apply st e) in
-      SApply e (snd (apply st e)) :: obs_all st' qs ++ model_trace st' (Some e) r qs
+      SApply e (snd (apply st e)) :: SLogged e :: obs_all st' qs ++ model_trace st' (Some e) r qs
   | OReapply :: r =>
       match last with
       | Some e => let st' := fst (reapply st e) in
